@@ -6,7 +6,7 @@
 From DV Require Import RightsSpec RightsP RoomNode RoomNodeP Run_C07 C07P.
 
 (* the full statement, on what the model says the implementation observes; it is REFUTED on the
-   current tree by the three witnesses of the open classes below.  What holds for every input is (1)-(4). *)
+   current tree by the two witnesses of the open classes 1 and 2 below.  What holds for every input is (1)-(4). *)
 Definition C07_full : Prop := forall c, spec_C07 c (run_C07 c) = true.
 
 (* (1) monotone, for every room held and every candidate: an accepted update never removes or alters a
@@ -24,8 +24,8 @@ Print Assumptions C07_update_monotone.
    administrator; of a group new to the peer (former class 3, repaired by 85b1827, now at full
    strength): the row, its rights and its user-admin entries by administrators, its users by a user
    admin of the group or an administrator; the resulting room decides exactly what the rows kept
-   grant.  Outside the open classes this is the property: class 4 is the gap between "new id" and
-   "new row", class 1 the references. *)
+   grant.  Outside the open class 1 (the SIGNER of a placing reference is not looked at) this is the
+   property; the former gap between "new id" and "new row" is closed by (2b). *)
 Theorem C07_update_entitled_outside_known : forall evs r old cand b res,
   Rep evs r -> NoDup (map an_id (rmn_gnodes old)) ->
   prepare_room_with_history r old cand = POk (b, res) ->
@@ -38,6 +38,18 @@ Theorem C07_update_entitled_outside_known : forall evs r old cand b res,
   exists r', parse_room res = POk r' /\ forall probes, decisions r' probes = flat_map (decide_spec (evs_of_node res)) probes.
 Proof. exact update_entitled. Qed.
 Print Assumptions C07_update_entitled_outside_known.
+
+(* (2b) former class 4 and the closed part of class 1, at full strength (cd32c02): whatever candidate
+   passes check_consistency - the first thing prepare_room_node does on either path - has, in every
+   list, each id once and every row referenced from that list under the list's field name; hence
+   "new id" in (2) means "new row", no row rides on another row's id or without a reference *)
+Theorem C07_consistent_placed_holds : forall n,
+  check_consistency n = POk tt ->
+  NoDup (map un_id (rmn_anodes n)) /\ referenced (rmn_aedges n) L_ADMIN (map un_id (rmn_anodes n)) /\
+  NoDup (map an_id (rmn_gnodes n)) /\ referenced (rmn_gedges n) L_AUTHS (map an_id (rmn_gnodes n)) /\
+  forall g, In g (rmn_gnodes n) -> auth_placed g.
+Proof. exact consistent_placed. Qed.
+Print Assumptions C07_consistent_placed_holds.
 
 (* (3) a room never seen before: the accepted room is the strict replay of its rows, every row's author
    is an administrator OF THAT HISTORY at the row's date, the room decides what the rows grant.
@@ -72,14 +84,21 @@ Print Assumptions C07_refuted_2.
 Theorem C07_class3_witness_holds : known_C07 wk3 = [] /\ run_C07 wk3 = [141] /\ spec_C07 wk3 (run_C07 wk3) = true.
 Proof. exact repaired_k3. Qed.
 Print Assumptions C07_class3_witness_holds.
-Theorem C07_refuted_4 : accepted_and_fails wk4 4.
-Proof. exact refuted_k4. Qed.
-Print Assumptions C07_refuted_4.
-(* key 3, a plain user before, is administrator after the class 1, 2, 4 candidates; the former class 3
-   candidate is refused *)
+(* the witness of the repaired class 4 (cd32c02) is refused now and the oracle holds on it; so are the
+   variants of the former class 1 that the same commit closes (reference of another field, no reference) *)
+Theorem C07_class4_witness_holds : known_C07 wk4 = [] /\ run_C07 wk4 = [170] /\ spec_C07 wk4 (run_C07 wk4) = true.
+Proof. exact repaired_k4. Qed.
+Print Assumptions C07_class4_witness_holds.
+Theorem C07_class1_closed_variants_hold :
+  known_C07 wk1b = [] /\ run_C07 wk1b = [171] /\ spec_C07 wk1b (run_C07 wk1b) = true /\
+  known_C07 wk1c = [] /\ run_C07 wk1c = [171] /\ spec_C07 wk1c (run_C07 wk1c) = true.
+Proof. exact repaired_k1_variants. Qed.
+Print Assumptions C07_class1_closed_variants_hold.
+(* key 3, a plain user before, is administrator after the class 1 and class 2 candidates; the former
+   class 3 and class 4 candidates are refused *)
 Theorem C07_attacker_gains :
   admin_after wk0 3%N 6000 = Some false /\
-  admin_after wk1 3%N 6000 = Some true /\ admin_after wk2 3%N 6000 = Some true /\ admin_after wk4 3%N 6000 = Some true /\
+  admin_after wk1 3%N 6000 = Some true /\ admin_after wk2 3%N 6000 = Some true /\ admin_after wk4 3%N 6000 = None /\
   uadmin_after wk0 3%N 6000 = Some false /\ uadmin_after wk3 3%N 6000 = None.
 Proof. exact attacker_gains. Qed.
 Print Assumptions C07_attacker_gains.
